@@ -34,6 +34,13 @@ def stop_scripts(rnd, n_extra):
                 s2["gens"][0]["clients"][0]["keepOpen"] = True
                 s2["gens"][0]["inputFlushMs"] = 400
             out.append(s2)
+    # the Datadog output: intake state at the stop x httpTimeout below / beyond the buffer's shutdown bound (5 s of scaled timeouts)
+    for name, ups in (("healthy", []), ("refusing", ["closeNow"] * 60), ("silent", ["noAck"] * 30), ("failing", ["resetAfter1"] * 60)):
+        for tmo in (400, 9000):
+            for stop_after in (0, 25):
+                out.append({"id": "dd-stop-%s-%d-%d" % (name, tmo, stop_after), "datadog": True, "ddTimeoutMs": tmo, "keys": 2, "memWindow": 2 if stop_after else 0,
+                            "gens": [{"upstream": ups, "clients": [{"n": 40, "pauseEvery": 5, "pauseMs": 32, "delayMs": 0}], "stopAfterMs": stop_after},
+                                     {"upstream": [], "clients": [{"n": 1, "pauseEvery": 0, "pauseMs": 0, "delayMs": 0}], "stopAfterMs": 10, "drain": True}]})
     for j in range(n_extra):
         out.append(A.random_script("rnd%d" % j, rnd))
     return out
@@ -55,6 +62,10 @@ def run(chk):
     # the listener: the stop closes every socket, waits for every connection task, and nothing is accepted after it
     from checks import lscommon
     cov["listener_traces"] = lscommon.run(chk, rnd, thorough)
+    # the connection under the forwarding client: a write blocked by a peer that does not read, a read the peer never answers -
+    # each ends at its deadline or as soon as Close is called (what the stop does), on the real Forward connection
+    from checks import fccommon
+    cov["connection_contract_traces"] = fccommon.run(chk, random.Random(chk.seed + 11), False)
     # component level: the driver reports HUNG (no Finished within 5 s of scaled timeouts) which no action explains
     behs = chk.tlc_simulate("Forwarder", "Forwarder_sim.cfg", 2000 if thorough else 60, 150, chk.seed)
     fs = [F.script_from_behaviour(b, "sim%d" % i, rnd) for i, b in enumerate(behs)] + [F.random_script("rnd%d" % i, rnd) for i in range(2000 if thorough else 40)] + [dict(s, id=s["id"] + "-%d" % rep) for rep in range(3) for s in F.recovery_stories()]
@@ -74,7 +85,7 @@ def run(chk):
                 "max_forwarder_stop_to_finished_ms": max(stop_ms + [0]), "forwarder_or_buffer_hung_runs": hung,
                 "rule": "forwarding client: stop at every trace position of TLC-derived and random fault scripts (a run that does not finish is a HUNG event no action explains); hybrid buffer: Destroy at scripted positions; end to end: upstream state at the stop {healthy, refusing, resetting, accepting but never answering, late ACK} x load {idle, open chunk, full 2-chunk memory window, pending ACKs} x stop 0/25/120 ms after the last client closed; bound 4 s with timeouts of 20-400 ms; after every stop every record read is acknowledged or in a chunk file",
                 "samples": [scripts[0]]})
-    chk.assumptions += ["'bounded time' is decided as: no spec step after the stop waits for a timer (StopTerminates without timer fairness) and, on the code, a generous wall-clock bound on scaled timeouts; 'blocked mid-write' is not provoked",
+    chk.assumptions += ["'bounded time' is decided as: no spec step after the stop waits for a timer (StopTerminates without timer fairness) and, on the code, a generous wall-clock bound on scaled timeouts; 'blocked mid-write' is provoked at the connection level (drv/fc: a peer that stops reading, 32 MB chunk), not end to end",
                         "a rejection is a violation only if reproduced on a re-run"]
 
 
